@@ -60,28 +60,61 @@ func fuHandlers(p *Program) []fuHandler {
 	return out
 }
 
-// bitTest recognises (x>>k)&1 == 1 and returns k.
+// bitTest recognises a test of bit k of a byte that is true when the bit is set:
+// (x>>k)&1 == 1, (x>>k)&1 != 0, x&(1<<k) != 0, x&(1<<k) == 1<<k. Use bitTestPol for the negative forms.
 func bitTest(cond ssa.Value) (int64, bool) {
+	k, pos, ok := bitTestPol(cond)
+	if !ok || !pos {
+		return 0, false
+	}
+	return k, true
+}
+
+// bitTestPol: (bit index, true if the condition holds when the bit is SET, ok).
+func bitTestPol(cond ssa.Value) (int64, bool, bool) {
 	b, ok := cond.(*ssa.BinOp)
-	if !ok || b.Op != token.EQL {
-		return 0, false
+	if !ok || (b.Op != token.EQL && b.Op != token.NEQ) {
+		return 0, false, false
 	}
-	if k, ok := constInt(b.Y); !ok || k != 1 {
-		return 0, false
+	rhs, ok := constInt(b.Y)
+	if !ok {
+		return 0, false, false
 	}
-	and, ok := b.X.(*ssa.BinOp)
+	and, ok := stripConv(b.X).(*ssa.BinOp)
 	if !ok || and.Op != token.AND {
-		return 0, false
+		return 0, false, false
 	}
-	if k, ok := constInt(and.Y); !ok || k != 1 {
-		return 0, false
+	mask, ok := constInt(and.Y)
+	if !ok {
+		return 0, false, false
 	}
-	shr, ok := and.X.(*ssa.BinOp)
-	if !ok || shr.Op != token.SHR {
-		return 0, false
+	if shr, isShr := stripConv(and.X).(*ssa.BinOp); isShr && shr.Op == token.SHR && mask == 1 {
+		k, ok := constInt(shr.Y)
+		if !ok {
+			return 0, false, false
+		}
+		switch {
+		case b.Op == token.EQL && rhs == 1, b.Op == token.NEQ && rhs == 0:
+			return k, true, true
+		case b.Op == token.EQL && rhs == 0, b.Op == token.NEQ && rhs == 1:
+			return k, false, true
+		}
+		return 0, false, false
 	}
-	k, ok := constInt(shr.Y)
-	return k, ok
+	// x & (1<<k)
+	if mask > 0 && mask&(mask-1) == 0 {
+		k := int64(0)
+		for m := mask; m > 1; m >>= 1 {
+			k++
+		}
+		switch {
+		case b.Op == token.NEQ && rhs == 0, b.Op == token.EQL && rhs == mask:
+			return k, true, true
+		case b.Op == token.EQL && rhs == 0, b.Op == token.NEQ && rhs == mask:
+			return k, false, true
+		}
+	}
+	return 0, false, false
 }
 
 type fuState struct {
@@ -170,7 +203,10 @@ func ruleFU(c *Ctx, part string) {
 			Branch: func(s fuState, cond ssa.Value, taken bool) (fuState, bool) {
 				cv, neg := condNeg(cond)
 				val := taken != neg
-				if k, ok := bitTest(cv); ok {
+				if k, pos, ok := bitTestPol(cv); ok {
+					if !pos {
+						val = !val
+					}
 					set := func(cur int8) (int8, bool) {
 						want := int8(2)
 						if val {
